@@ -718,8 +718,8 @@ def find_distinguishing(rng, orig, parsed, hyp_list, tries=60):
         except (ZeroDivisionError, OverflowError, ValueError, KeyError):
             continue
         ok_points += 1
-        if a != a or abs(a) > 1e150:
-            continue        # the original overflows / is not a number here: nothing to compare
+        if a != a or abs(a) > 1e9:
+            continue        # the original overflows or sits next to a pole here: rounding decides, nothing to compare
         try:
             b = evaluate(parsed, val)
         except KeyError as e:
@@ -1076,7 +1076,7 @@ def cong_script(em: CoqEmit, parsed, orig, all_names):
         key = _freeze(n)
         if key in memo:
             return memo[key]
-        if n[0] in ("mul", "div", "powi", "inv", "add", "sub"):
+        if n[0] in ("mul", "div", "powi", "inv", "add", "sub", "dec", "num"):
             v = closed_value(n)
             if v is not None and v in orig_closed:
                 text, target = em.t(n), em.t(orig_closed[v])
@@ -1589,3 +1589,87 @@ def replay_values(c, val) -> int:
         if diff:
             bad = 1
     return bad
+
+
+class SourceFormGen:
+    """Seeded generator of LAW-STYLE SOURCE FORMS: expressions written with Python operators over symbols and literals
+    and built with SymPy evaluation disabled, the way the doc build obtains catalogued equations.  Grammar (what law
+    modules actually write):
+        sum    := term { (+|-) term }                     the right operand of a binary minus is a term, never a sum
+        term   := [-] factor { (*|/) factor }              chained products and quotients, e.g.  -a*b/(4*c)/d**2 ,  a/b/c
+        factor := atom | atom**k | (sum) | (sum)**k | f(sum) | sqrt(sum)
+        atom   := symbol | small integer | short float
+    Shapes outside it (minus applied to a parenthesised sum, Rational atoms as divisors, 1/(1/x)) are not generated: the
+    printers are not claimed to handle arbitrary unevaluated trees (see design notes)."""
+
+    FUNCS = ["exp", "log", "sin", "cos", "sqrt", "tanh"]
+
+    def __init__(self, rng, symbols):
+        self.rng = rng
+        self.syms = symbols
+
+    def atom(self):
+        r = self.rng.random()
+        if r < 0.72:
+            return self.rng.choice(self.syms)
+        if r < 0.92:
+            return sympy.Integer(self.rng.choice([2, 3, 4, 5, 8, 10]))
+        return sympy.Float(self.rng.choice([0.5, 2.5, 1.25, 0.4, 27.3]))
+
+    def factor(self, depth):
+        r = self.rng.random()
+        if depth <= 0 or r < 0.55:
+            a = self.atom()
+            if self.rng.random() < 0.25 and not a.is_Number:
+                return a**sympy.Integer(self.rng.choice([2, 3, 4]))
+            return a
+        if r < 0.75:
+            s = self.sum(depth - 1, force=True)
+            if self.rng.random() < 0.3:
+                return s**sympy.Integer(self.rng.choice([2, 3]))
+            return s
+        f = self.rng.choice(self.FUNCS)
+        arg = self.sum(depth - 1) if self.rng.random() < 0.5 else self.term(depth - 1, allow_sign=False)
+        if f == "sqrt":
+            return sympy.sqrt(arg)
+        return getattr(sympy, f)(arg)
+
+    def term(self, depth, allow_sign=True):
+        n = self.rng.choice([1, 2, 2, 3, 3, 4])
+        out = self.factor(depth)
+        if out.is_Number and n > 1:
+            out = self.rng.choice(self.syms)
+        first_is_sum = out.is_Add
+        if allow_sign and not first_is_sum and self.rng.random() < 0.3:
+            out = -out
+        for _ in range(n - 1):
+            f = self.factor(depth)
+            if self.rng.random() < 0.45:
+                if f.is_Number and f == 0:
+                    continue
+                out = out / f
+            else:
+                out = out * f
+        return out
+
+    def sum(self, depth, force=False):
+        n = self.rng.choice([2, 2, 3]) if force else self.rng.choice([1, 2, 2, 3])
+        out = self.term(depth)
+        if out.is_Add:
+            out = self.rng.choice(self.syms) * out        # a sum never stands alone as a term of a sum
+        for _ in range(n - 1):
+            t = self.term(depth, allow_sign=False)
+            if t.is_Add:
+                # a +- (b + c) is written a +- b +- c in law modules; a bare bracketed sum as a term is outside the grammar
+                t = self.rng.choice(self.syms) * t
+            out = out - t if self.rng.random() < 0.4 else out + t
+        return out
+
+    def sample(self):
+        from sympy.core.parameters import global_parameters  # pylint: disable=import-outside-toplevel
+        old = global_parameters.evaluate
+        global_parameters.evaluate = False
+        try:
+            return self.sum(self.rng.choice([1, 2, 2, 3]))
+        finally:
+            global_parameters.evaluate = old
